@@ -165,7 +165,7 @@ def c08(chk, opts):
         t = time.time()
         try:
             p = subprocess.run([binpath(prof), "drain", "--cases", cases, "--line", str(i), "--stack", str(2 << 20)],
-                               stdout=subprocess.PIPE, stderr=subprocess.PIPE, text=True, timeout=1200)
+                               stdout=subprocess.PIPE, stderr=subprocess.PIPE, text=True, timeout=(900 if thorough else 150))
         except subprocess.TimeoutExpired:
             return i, prof, {"outcome": "timeout", "count": -1, "sticky": 0}, time.time() - t
         out = None
